@@ -268,7 +268,7 @@ fn step_try_push_slice(data: &[u8; 64], len: usize) {
     kani::cover!(r.is_ok() && len == 0, "empty slice accepted");
 }
 
-// @harness props=C16 tier=quick mem=3 t=1500 fn="NameBuilder::try_push_slice"
+// @harness props=C16 tier=thorough mem=3 t=1500 fn="NameBuilder::try_push_slice"
 //   bound="one try_push_slice of every slice of 0..=3 octets (symbolic length and contents) from every state satisfying INV; unwind 5"
 //   sym="wire:[u8;255], offs:[u8;128], w, n, label_start, label_len, data:[u8;64], len<=3, k, i, j, p"
 //   stubs="S7"
@@ -282,7 +282,7 @@ fn c16_builder_step_try_push_slice_small() {
     step_try_push_slice(&data, len);
 }
 
-// @harness props=C16 tier=quick mem=3 t=1200 fn="NameBuilder::try_push_slice"
+// @harness props=C16 tier=thorough mem=3 t=1200 fn="NameBuilder::try_push_slice"
 //   bound="every slice of 0..=64 octets (symbolic length) from every state satisfying INV in which the slice must be REJECTED (label > 63 or name > 255 afterwards): rejected and state unchanged; unwind 66"
 //   sym="wire:[u8;255], offs:[u8;128], w, n, label_start, label_len, data:[u8;64], len<=64, k, i, j"
 //   stubs="S7"
